@@ -41,6 +41,7 @@ type output struct {
 	ViolCount   map[string]int64  `json:"viol_count"`
 	Samples     []any             `json:"samples"`
 	TraceHash   map[string]string `json:"trace_hash,omitempty"`
+	KnownHits   map[string]int64  `json:"known_hits,omitempty"`
 	Completed   bool              `json:"completed"`
 }
 
@@ -139,6 +140,7 @@ func main() {
 		nsamples = flag.Int("samples", 3, "decoded samples to keep")
 		watchdog = flag.Int("watchdog", 120, "seconds a single run may take before the worker exits 67")
 		budget   = flag.Int("budget", 400, "shrink budget (executions)")
+		known    = flag.String("known", "", "known-findings file: listed (status known) divergences are counted and resynchronised instead of ending the run")
 		dump     = flag.String("dump", "", "debug: write the tape and trace of every run to <dump>-<idx>.json")
 	)
 	flag.Parse()
@@ -184,6 +186,22 @@ func main() {
 	if *replay != "" {
 		doReplay(p, *replay, *shrink, *out, *budget)
 		return
+	}
+	if *known != "" {
+		if b, err := os.ReadFile(*known); err == nil {
+			var ff struct {
+				Findings []struct{ Status, Property, Class, Key string }
+			}
+			if err := json.Unmarshal(b, &ff); err != nil {
+				fmt.Fprintln(os.Stderr, "worker: known findings:", err)
+				os.Exit(3)
+			}
+			for _, f := range ff.Findings {
+				if f.Status == "known" && f.Property == p.ID {
+					core.KnownKeys[f.Class+"|"+f.Key] = true
+				}
+			}
+		}
 	}
 
 	var sf *os.File
@@ -241,6 +259,12 @@ func main() {
 		}
 		if *trace {
 			o.TraceHash[fmt.Sprint(idx)] = fmt.Sprintf("%016x/%d", r.EventHash(), r.T.Len())
+		}
+		for k, v := range r.KnownHits {
+			if o.KnownHits == nil {
+				o.KnownHits = map[string]int64{}
+			}
+			o.KnownHits[k] += v
 		}
 		if r.V != nil {
 			ck := r.V.Class + "|" + r.V.Key
